@@ -106,6 +106,7 @@ DOCS = {
     "unionmodels": (UnionModels, UnionModels(item=Textual(value="n/a"), items=[Numeric(value=1)])),
     "dup": (Dup, Dup(code=1, label="l", alt_code="0042")),
     "anytyped": (AnyTyped, AnyTyped(v=5)),
+    "holdernest": (Holder, Holder(b=DerivedNest(x=1, inner=Child(v=2, a="q")), bs=[DerivedNest(x=3, inner=Child(v=4))])),
     "anystr": (AnyTyped, AnyTyped(v="hello")),
     "wlderived": (WildList, WildList(items=[DerivedElement(qname="{urn:c}d", value=Alpha(v=3), type="alpha"), AnyElement(qname="{urn:c}a", text="1")])),
     "family": (Family, Family(members=[Base(x=1), Derived(x=2, y="q"), Sibling(x=3, z=True)])),
